@@ -561,6 +561,10 @@ static int unpatch_fentry_func(struct mcount_dynamic_info *mdi, struct uftrace_s
 {
 	uint64_t sym_addr = sym->addr + mdi->map->start;
 
+	/* skip 'endbr64' (-fcf-protection) like patch_fentry_code() does */
+	if (!memcmp((void *)sym_addr, endbr64, sizeof(endbr64)))
+		sym_addr += sizeof(endbr64);
+
 	return unpatch_func((void *)sym_addr, sym->name);
 }
 
